@@ -209,6 +209,9 @@ let run_engine (id, lines) =
              let k = int_of_string (List.hd r) in
              if k < Array.length !sols then cur := k;
              Printf.printf "%s %d result done\n" id !step
+         | "snapall" ->
+             Printf.printf "%s %d result done\n" id !step;
+             Array.iteri (fun j sj -> snapshot (Printf.sprintf "%s S%d" id j) !step i sj) !sols
          | _ -> Printf.printf "%s %d result unsupported\n" id !step);
         snapshot id !step i !sols.(!cur); incr step
     | _ -> ()) lines
